@@ -190,6 +190,17 @@ class Universe:
         finally:
             started.set()
 
+    async def _short_listener(self, idx: int, ctx: Any, started: asyncio.Event) -> None:
+        """A listener that subscribes BEFORE the long-lived one and leaves after the first event (what a component waiting for a
+        resource does): listeners do not detach in reverse order of attaching."""
+        try:
+            async with ctx.resource_added.stream_events() as stream:
+                started.set()
+                async for ev in stream:
+                    break
+        finally:
+            started.set()
+
     async def _actor(self, idx: int, parent_idx: int, implicit: bool) -> None:
         from asphalt.core import Context
 
@@ -202,6 +213,9 @@ class Universe:
             await self.outbox[idx].put(("create-failed", e))
             return
         self.ctxs[idx] = ctx
+        started0 = asyncio.Event()
+        self.tg.start_soon(self._short_listener, idx, ctx, started0)
+        await started0.wait()
         started = asyncio.Event()
         self.tg.start_soon(self._listener, idx, ctx, started)
         await started.wait()
@@ -547,6 +561,16 @@ class Universe:
                     gen = any("#" in str(v) for v in list(got.values()) + list(exp.values()))
                     self.fail("generated-scope" if gen else "visible", f"{where}: get_resources({tname}) on c{idx} = {got}, model {exp}")
                     self.fail("unchanged", f"{where}: get_resources({tname}) on c{idx} = {got}, model {exp}")
+            if m.state in ("open", "closing"):
+                # the name "z" is only ever used by calls that must fail: nothing may be registered under it (a factory left behind by a
+                # failed add_resource_factory() is invisible to get_resources(), so look it up)
+                for tname in ("A", "B"):
+                    try:
+                        left = ctx.get_resource_nowait(TYPES[tname], "z", optional=True)
+                    except BaseException as e:  # noqa: BLE001
+                        left = f"<{type(e).__name__}>"
+                    if left is not None:
+                        self.fail("unchanged", f"{where}: a lookup of ({tname}, 'z') on c{idx} gives {left!r} although every call using that name failed")
             try:
                 closed = bool(ctx.closed)
             except BaseException as e:  # noqa: BLE001
